@@ -363,6 +363,90 @@ Lemma expr_adjoint_sound_flat (e : oexpr) : wf leaf_ok e ->
   dom (adjoint e) = ran e /\ ran (adjoint e) = dom e.
 Proof. intros Hw. destruct (expr_adjoint_sound_all e Hw) as ((H1 & H2 & H3) & H4). auto. Qed.
 
+(* ---- the adjoint of a good tree is again a good tree ---- *)
+Definition leaf_good (l : leaf) : Prop := leaf_ok l /\ wf leaf_ok (leaf_adjoint l).
+
+Lemma wf_weaken (P Q : leaf -> Prop) (e : oexpr) : (forall l, P l -> Q l) -> wf P e -> wf Q e.
+Proof.
+  intros HPQ.
+  induction e as [l|a b IHa IHb|a b IHa IHb|s a IHa|a s IHa|v a IHa|a v IHa|wv v a IHa|l IHl|l IHl|l IHl]
+    using oexpr_ind'; cbn [wf]; intros Hw; try tauto; try (apply HPQ; assumption).
+  - destruct Hw as (Wl & Hne & Hr). split; [|split; assumption].
+    clear Hne Hr. induction IHl as [|c m Hc _ IHm]; [exact I|]. destruct Wl as [W1 W2]. split; [apply Hc; assumption | apply IHm; assumption].
+  - destruct Hw as (Wl & Hne & Hr). split; [|split; assumption].
+    clear Hne Hr. induction IHl as [|c m Hc _ IHm]; [exact I|]. destruct Wl as [W1 W2]. split; [apply Hc; assumption | apply IHm; assumption].
+  - induction IHl as [|c m Hc _ IHm]; [exact I|]. destruct Hw as [W1 W2]. split; [apply Hc; assumption | apply IHm; assumption].
+Qed.
+Lemma wf_mk_lscal P s e : wf P e -> wf P (mk_lscal s e).
+Proof. destruct e; cbn [mk_lscal wf]; auto. Qed.
+Lemma leaf_ok_inner_gen (w v : vec) : length v = length w -> leaf_ok (LInner w v).
+Proof.
+  intros Hv. split; [|split; reflexivity]. cbn [leaf_dom leaf_ran leaf_adjoint]. split; [|split].
+  - intros x Hx; reflexivity.
+  - intros t Ht; cbn [eval eval_leaf]. rewrite vscal_len; assumption.
+  - intros x t Hx Ht. cbn [eval eval_leaf]. rewrite (length1 t Ht) at 1.
+    rewrite cinner_one, (cinner_vscal_r OK). ring.
+Qed.
+
+Lemma wf_all_adjoint (l : list oexpr) :
+  Forall (fun e => wf leaf_good e -> wf leaf_ok (adjoint e)) l -> wf_all leaf_good l ->
+  wf_all leaf_ok (map adjoint l).
+Proof.
+  induction 1 as [|c m Hc _ IHm]; intros Hw; [exact I|]. destruct Hw as [W1 W2].
+  cbn [map]. split; [apply Hc; assumption | apply IHm; assumption].
+Qed.
+Lemma sound_all_of_good (l : list oexpr) : wf_all leaf_good l -> Forall sound l.
+Proof.
+  induction l as [|a l IH]; intros Hw; constructor.
+  - apply expr_adjoint_sound_all. eapply wf_weaken; [|apply Hw]. intros ? [? _]; assumption.
+  - apply IH; apply Hw.
+Qed.
+
+Theorem adjoint_wf (e : oexpr) : wf leaf_good e -> wf leaf_ok (adjoint e).
+Proof.
+  assert (Hweak : forall e, wf leaf_good e -> wf leaf_ok e)
+    by (intros e0 H0; eapply wf_weaken; [|exact H0]; intros ? [? _]; assumption).
+  induction e as [l|a b IHa IHb|a b IHa IHb|s a IHa|a s IHa|v a IHa|a v IHa|wv v a IHa|l IHl|l IHl|l IHl]
+    using oexpr_ind'; intros Hw.
+  - exact (proj2 Hw).
+  - destruct Hw as (Wa & Wb & Hd & Hr).
+    destruct (expr_adjoint_sound_all a (Hweak a Wa)) as (_ & Da & Ra).
+    destruct (expr_adjoint_sound_all b (Hweak b Wb)) as (_ & Db & Rb).
+    cbn [adjoint wf]. repeat split; auto; congruence.
+  - destruct Hw as (Wa & Wb & Hd).
+    destruct (expr_adjoint_sound_all a (Hweak a Wa)) as (_ & Da & Ra).
+    destruct (expr_adjoint_sound_all b (Hweak b Wb)) as (_ & Db & Rb).
+    cbn [adjoint wf]. repeat split; auto; congruence.
+  - cbn [adjoint]. apply wf_mk_lscal. apply IHa. exact Hw.
+  - cbn [adjoint]. apply wf_mk_lscal. apply IHa. exact Hw.
+  - destruct Hw as (Wa & Hv). destruct (expr_adjoint_sound_all a (Hweak a Wa)) as (_ & Da & Ra).
+    cbn [adjoint wf]. split; [apply IHa; assumption|]. rewrite vconj_len, Da. assumption.
+  - destruct Hw as (Wa & Hv). destruct (expr_adjoint_sound_all a (Hweak a Wa)) as (_ & Da & Ra).
+    cbn [adjoint wf]. split; [apply IHa; assumption|]. rewrite vconj_len, Ra. assumption.
+  - destruct Hw as (Wa & Hr1 & Hv & Hwv). destruct (expr_adjoint_sound_all a (Hweak a Wa)) as (_ & Da & Ra).
+    cbn [adjoint wf]. split; [apply IHa; assumption|]. split; [apply leaf_ok_inner_gen; assumption|].
+    cbn [ran leaf_ran]. congruence.
+  - destruct Hw as (Wl & Hne & Hr). pose proof (sound_all_of_good l Wl) as Hs.
+    cbn [adjoint wf]. split; [exact (wf_all_adjoint l IHl Wl)|]. split; [destruct l; [congruence | discriminate]|].
+    destruct l as [|a0 l0]; [congruence|]. cbn [map hd_dom].
+    assert (Hh : forall r m, Forall (fun a => ran a = r) m -> Forall sound m ->
+                 Forall (fun a => dom a = r) (map adjoint m)).
+    { clear. intros r m H1 H2. induction H1 as [|c m Hc _ IHm]; [constructor|].
+      cbn [map]. constructor; [| apply IHm; exact (Forall_inv_tail H2)].
+      destruct (Forall_inv H2) as (_ & Dc & _). congruence. }
+    destruct (Forall_inv Hs) as (_ & D0 & _). rewrite D0. apply (Hh (ran a0) (a0 :: l0)); assumption.
+  - destruct Hw as (Wl & Hne & Hd). pose proof (sound_all_of_good l Wl) as Hs.
+    cbn [adjoint wf]. split; [exact (wf_all_adjoint l IHl Wl)|]. split; [destruct l; [congruence | discriminate]|].
+    destruct l as [|a0 l0]; [congruence|]. cbn [map hd_ran].
+    assert (Hh : forall r m, Forall (fun a => dom a = r) m -> Forall sound m ->
+                 Forall (fun a => ran a = r) (map adjoint m)).
+    { clear. intros r m H1 H2. induction H1 as [|c m Hc _ IHm]; [constructor|].
+      cbn [map]. constructor; [| apply IHm; exact (Forall_inv_tail H2)].
+      destruct (Forall_inv H2) as (_ & _ & Rc). congruence. }
+    destruct (Forall_inv Hs) as (_ & _ & R0). rewrite R0. apply (Hh (dom a0) (a0 :: l0)); assumption.
+  - cbn [adjoint wf]. exact (wf_all_adjoint l IHl Hw).
+Qed.
+
 (* ---- A.adjoint.adjoint acts like A: uniqueness of the adjoint ---- *)
 Definition invertible (w : vec) : Prop := Forall (fun c => exists c', c' * c = none_) w.
 
@@ -399,5 +483,13 @@ Proof.
   destruct (expr_adjoint_sound_all e W1) as (P1 & D1 & R1).
   destruct (expr_adjoint_sound_all (adjoint e) W2) as (P2 & _ & _).
   rewrite D1, R1 in P2. exact (adjoint_unique _ _ _ _ _ Hd Hr Hinv P1 P2).
+Qed.
+(* with the closure of good trees under adjoint the second premise disappears *)
+Theorem double_adjoint_good (e : oexpr) : wf leaf_good e ->
+  vconj (dom e) = dom e -> vconj (ran e) = ran e -> invertible (ran e) ->
+  forall x, length x = length (dom e) -> eval (adjoint (adjoint e)) x = eval e x.
+Proof.
+  intros W. apply double_adjoint_all; [|apply adjoint_wf; assumption].
+  eapply wf_weaken; [|exact W]. intros ? [? _]; assumption.
 Qed.
 End Tree.
